@@ -128,8 +128,29 @@ Readings(f, n) == {Natural(f, n), Rfc(f, n, FALSE), Rfc(f, n, StartOpen(f)), Pri
 (* follow (consistency); ProbeOK judges the recorded choice itself.                           *)
 HasProbe(f, n) == "pr" \in DOMAIN f /\ n + 1 <= Len(f.pr)
 ProbeOK(f, n) == ~HasProbe(f, n) \/ (IF SliceStrict(f, n) THEN f.pr[n + 1] = Natural(f, n) ELSE f.pr[n + 1] \in Readings(f, n))
-SliceIdx(f, n) == IF SliceStrict(f, n) THEN Natural(f, n)
+(* ov (optional): an override table, index sequence per array length.  It is never part of a recorded case; the trace *)
+(* specifications attach it to a copy of the path to evaluate a SECOND, "as-implemented" reading of a slice (the      *)
+(* arithmetic of a known defect), used only to name the locus of a deviation precisely - never to accept a result.   *)
+SliceIdx(f, n) == IF "ov" \in DOMAIN f THEN (IF n + 1 <= Len(f.ov) THEN f.ov[n + 1] ELSE <<>>)
+                  ELSE IF SliceStrict(f, n) THEN Natural(f, n)
                   ELSE IF HasProbe(f, n) THEN f.pr[n + 1] ELSE Principal(f, n)
+
+WithOv(f, Idx(_, _), maxN) == [x \in (DOMAIN f) \cup {"ov"} |-> IF x = "ov" THEN [j \in 1..(maxN + 1) |-> Idx(f, j - 1)] ELSE f[x]]
+HasSlice(path) == \E i \in 1..Len(path) : path[i].f = "slice"
+
+(* Known defect C11-2: Locate and Expr.Walk take their bounds from Slice.startEndStep (jp/slice.go), not from Get's    *)
+(* arithmetic: a negative end becomes inclusive (size + end + 1), a start at or beyond the size is clamped to the     *)
+(* last element, an end below -size is -1 only for a negative step.                                                   *)
+StartEndStepIdx(f, n) ==
+  LET st == StepOf(f)
+      s0 == IF f.sa THEN 0 ELSE f.s
+      s1 == IF s0 < 0 THEN n + s0 ELSE IF n <= s0 THEN n - 1 ELSE s0
+      s == IF s1 < 0 THEN 0 ELSE s1
+      e == IF f.ea THEN n
+           ELSE IF f.e < 0 THEN (IF n + f.e + 1 < 0 /\ st < 0 THEN 0 - 1 ELSE n + f.e + 1)
+           ELSE IF n < f.e THEN n ELSE f.e
+  IN IF st = 0 \/ n = 0 THEN <<>>
+     ELSE IF st > 0 THEN Up(s, e, st, n) ELSE Down(s, e, st, n)
 
 \* ------------------------------------------------------------------ filters (small menu; full scripts are C12)
 FilterTrue(f, e) ==
